@@ -59,6 +59,29 @@ def extract(path, out, via_app=False, save_index=True, stale=None):
     return ('ok', count, ob, ib)
 
 
+def extract_in_place(path, how):
+    """Extract `path` (a .p1log) with the output resolving to the same file. Returns ('ok', bytes now in the file | None) or ('raise', text)."""
+    try:
+        if how == 'func-default-name':
+            from fusion_engine_client.utils.log import extract_fusion_engine_log
+            extract_fusion_engine_log(path, warn_on_gaps=False)
+        else:
+            from fusion_engine_client.applications import p1_extract
+            argv = sys.argv
+            sys.argv = ['p1_extract', '-o', os.path.dirname(path), '-p', os.path.splitext(os.path.basename(path))[0], path]
+            try:
+                with contextlib.redirect_stdout(io.StringIO()):
+                    p1_extract.main()
+            finally:
+                sys.argv = argv
+    except SystemExit as e:
+        if e.code not in (0, None):
+            return ('raise', 'SystemExit %s' % e.code)
+    except BaseException as e:
+        return ('raise', '%s: %s' % (type(e).__name__, str(e)[:100]))
+    return ('ok', open(path, 'rb').read() if os.path.exists(path) else None)
+
+
 def fresh_index_bytes(out_path):
     """Index file a fresh indexing of `out_path` writes (in a scratch copy so the extractor's index is untouched)."""
     data = open(out_path, 'rb').read()
@@ -131,6 +154,21 @@ def one_file(ctx, data, kinds, lines, pending, via_app=False, save_index=True, s
         for f in (out2, os.path.splitext(out2)[0] + '.p1i', src2, os.path.splitext(src2)[0] + '.p1i'):
             if os.path.exists(f):
                 os.remove(f)
+        # "extracting the output again" in the most direct way: the output file itself with the default output name
+        # (<stem>.p1log = the same file), through the function and through the p1_extract tool
+        if again[0] == 'ok' and again[2] == ob:
+            for how in ('func-default-name', 'app-same-stem'):
+                src3 = os.path.join(d, 'c18_again.p1log')
+                with open(src3, 'wb') as f:
+                    f.write(ob)
+                inplace = extract_in_place(src3, how)
+                for f in (src3, os.path.splitext(src3)[0] + '.p1i', src3 + '.tmp'):
+                    if os.path.exists(f):
+                        os.remove(f)
+                ctx.count('second_extraction_in_place_' + how)
+                if inplace != ('ok', ob):
+                    again = ('ok', again[1], None if inplace[0] != 'ok' else inplace[1], None, how, inplace)
+                    break
     if not save_index:
         if ib is not None:
             ctx.violation('C18/index-written-although-not-requested', 'save_index=False but a .p1i was written', replay)
@@ -173,8 +211,10 @@ def judge(ctx, replay, count, ob, ib, fresh, again, mo):
     if again is None or again[0] == 'raise':
         ctx.violation('C18/second-extraction-raised', str(again), replay)
     elif again[2] != ob:
-        ctx.violation('C18/not-idempotent', 'extracting the output again changed it (%d -> %s bytes)' %
-                      (len(ob), None if again[2] is None else len(again[2])), replay)
+        how = ' (%s: %s)' % (again[4], again[5][:2] if again[5][0] == 'raise' else 'file now %s' %
+                             ('missing' if again[5][1] is None else '%d bytes' % len(again[5][1]))) if len(again) > 4 else ''
+        ctx.violation('C18/not-idempotent' + ('-in-place' if how else ''), 'extracting the output again changed it (%d -> %s bytes)%s' %
+                      (len(ob), None if again[2] is None else len(again[2]), how), replay)
     elif again[1] is not None and count is not None and again[1] != count:
         ctx.violation('C18/not-idempotent-count', 'second extraction reports %s messages, first %s' % (again[1], count), replay)
     ctx.count('messages_extracted', int(mcount))
